@@ -176,6 +176,20 @@ VARIANTS = [
 ]
 
 
+_BASE = {}
+
+
+def base_keys(prop, root):
+    """finding keys of the unchanged tree for this property (computed once per worker process)"""
+    k = (prop, root)
+    if k not in _BASE:
+        mod = importlib.import_module(f"hgsa.rules.{prop.lower()}")
+        base = Report(prop, "quick")
+        mod.run(Repo(root), base, "quick")
+        _BASE[k] = {f.key for f in base.findings}
+    return _BASE[k]
+
+
 def _run_one(args):
     prop, kind, rel, old, new, note, root = args
     path = os.path.join(root, rel)
@@ -192,9 +206,7 @@ def _run_one(args):
         return (prop, kind, rel, note, "skipped", f"variant does not compile: {e}")
     mod = importlib.import_module(f"hgsa.rules.{prop.lower()}")
     try:
-        base = Report(prop, "quick")
-        mod.run(Repo(root), base, "quick")
-        basekeys = {f.key for f in base.findings}
+        basekeys = base_keys(prop, root)
         rep = Report(prop, "quick")
         mod.run(Repo(root, overrides={rel: src2}), rep, "quick")
         newf = [f for f in rep.findings if f.key not in basekeys]
@@ -281,9 +293,7 @@ def _run_seed(args):
         ov[rel] = out
     mod = importlib.import_module(f"hgsa.rules.{prop.lower()}")
     try:
-        base = Report(prop, "quick")
-        mod.run(Repo(root), base, "quick")
-        basekeys = {f.key for f in base.findings}
+        basekeys = base_keys(prop, root)
         rep = Report(prop, "quick")
         mod.run(Repo(root, overrides=ov), rep, "quick")
         newf = [f for f in rep.findings if f.key not in basekeys]
@@ -313,6 +323,17 @@ def run(prop, root, jobs=16):
         with ProcessPoolExecutor(max_workers=min(jobs, len(seeds))) as ex:
             seed_results = list(ex.map(_run_seed, seeds))
     results += [(r[0], "mutant", r[2], "seeded change " + r[3], r[4], r[5]) for r in seed_results]
+    # the confirmed behaviour-preserving refactorings (all properties' corpora): applied in memory, this property's rules must stay silent
+    neutral_root = os.path.join(os.path.dirname(os.path.dirname(os.path.abspath(__file__))), "neutral")
+    neutrals = []
+    if os.path.isdir(neutral_root):
+        for d in sorted(os.listdir(neutral_root)):
+            if os.path.exists(os.path.join(neutral_root, d, "patch.diff")):
+                neutrals.append((prop, d, os.path.join(neutral_root, d, "patch.diff"), root))
+    if neutrals:
+        with ProcessPoolExecutor(max_workers=min(jobs, len(neutrals))) as ex:
+            nres = list(ex.map(_run_seed, neutrals))
+        results += [(r[0], "neutral", r[2], "behaviour-preserving refactoring " + r[3], r[4], r[5]) for r in nres]
     mutants = [r for r in results if r[1] == "mutant" and r[4] != "skipped"]
     neutrals = [r for r in results if r[1] == "neutral" and r[4] != "skipped"]
     return {
